@@ -1,6 +1,7 @@
 import ModVerif.Drv.MainLoop
 import ModVerif.Drv.Note
 import ModVerif.Drv.GenNote
+import ModVerif.Drv.GenNoteKey
 open ModVerif.Drv
 
-def main : IO Unit := runMain [("note", Note.handle), ("gnote", GenNote.handle)]
+def main : IO Unit := runMain [("note", Note.handle), ("gnote", fun op args => (GenNote.handle op args) <|> (GenNoteKey.handle op args))]
